@@ -34,7 +34,11 @@ def _finite(lo, hi):
 def double_bounds(draw, positive=False, allow_degenerate=True):
   cls = draw(st.sampled_from(
       ['unit', 'tiny', 'neg', 'mixed', 'wide', 'generic', 'degenerate', 'huge']
-      if not positive else ['unit+', 'tiny', 'wide+', 'generic+', 'huge+']))
+      if not positive else ['unit+', 'tiny', 'wide+', 'generic+', 'huge+'] + (
+          ['degenerate+'] if allow_degenerate else [])))
+  if cls == 'degenerate+':
+    a = draw(st.sampled_from([0.1, 1e-5, 123.456, 3.3, 1.0]))
+    return a, a
   if cls == 'unit':
     return 0.0, 1.0
   if cls == 'unit+':
